@@ -178,7 +178,8 @@ class PureProp:
     module = 'EaModel.Properties.C15'
     assumptions = ['jitter is evaluated with a fixed (scripted) random source',
                    'an interval trigger without start is defined from its first query on (it anchors its grid)',
-                   'the sun cache / set_location part of C15 is exercised by the C18 check (relocation)']
+                   'sun triggers: the cache is judged by re-configuring the location (same coordinates, other observer elevation) and '
+                   'comparing with a fresh computation; the astronomy itself is the subject of C18']
 
     def __init__(self, theorems: list[str]) -> None:
         self.theorems = theorems
@@ -192,6 +193,22 @@ class PureProp:
         with ProcessPoolExecutor(max_workers=min(8 if run.tier == 'quick' else 16, os.cpu_count() or 4)) as ex:
             for c in ex.map(pure_case, [(base + i, run.tier) for i in range(n)], chunksize=4):
                 self.check_case(run, c)
+            # sun triggers: the answer depends on the configured location, not on what was queried / configured before
+            from props_sun import sun_case
+            k = {'quick': 16, 'thorough': 400}[run.tier]
+            for c in ex.map(sun_case, [(base + 5_000_000 + i, 'quick') for i in range(k)], chunksize=2):
+                self.check_sun(run, c)
+
+    def check_sun(self, run: Run, c: dict) -> None:
+        run.evaluations += len(c['relocate'])
+        for q, a, b in c['relocate']:
+            if a != b:
+                run.findings.append(Finding(
+                    'oracle', f"[zone {c['tz']} lat {c['lat']:.3f} lon {c['lon']:.3f} sun kind {c['kind']}] after set_location(same "
+                    f'coordinates, observer elevation 2500 m) get_next({q}) returns {a}, a fresh computation for the configured '
+                    f'location gives {b}: the answer depends on earlier queries',
+                    {'component': 'sun', 'seed': c['seed'], 'lat': c['lat'], 'lon': c['lon'], 'kind': c['kind'],
+                     'start': c['queries'][0], 'tz': c['tz'], 'relocate': True}))
 
     def check_case(self, run: Run, c: dict) -> None:
         run.evaluations += c['n']
@@ -220,4 +237,8 @@ class PureProp:
             run.sample({'zone': c['tz'], 'trigger': prod_sx(c['spec'])[:160], 'checked_answers': c['n']})
 
     def replay(self, run: Run, obj: dict) -> None:
+        if obj.get('relocate'):
+            from props_sun import sun_case
+            self.check_sun(run, sun_case(({k: obj[k] for k in ('seed', 'lat', 'lon', 'kind', 'start')}, 'quick')))
+            return
         self.check_case(run, pure_case((obj['seed'], run.tier)))
